@@ -38,7 +38,7 @@ KERNEL_SAMPLE = {"quick": 40, "thorough": 300}
 KERNEL_MAXLEN = 1500
 TRUSTED_BASE = ["lib/props/vmgen.py result-line parsers; lib/props/c07.py tree-language interpreter (completed effects)"]
 MANIFEST = dict(
-    text="Coq theorems over the hand-written model of run.rs/mod.rs (after fixes f6f5af0 and 9a27905): whatever instruction fails at whatever depth, inside or outside a continuation, the machine exits with sp=0, bp=0, ep and acc reset, every stack slot wiped, and heap/globals/output exactly those at the failing instruction (completed effects only); a completed evaluation wipes the stack too; a read/compile failure reports no stack trace; a failing run decomposes exactly into n successful instructions, the failing instruction, the captured trace and reset_regs (C07_failure_state_equation, with its converse): what it leaves changed is what the completed instructions changed; after k consecutive run-time failures of any forms sp = bp = 0, ep and acc are reset and the stack is empty (C07_k_failures_no_accumulation); the stack capacity after failures is the maximum reached and does not grow by failing, conditional on 'no instruction shrinks the capacity' (cap_monotone, not discharged). Tied to /repo by session pairs with a failure injected at every node position of generated programs (seven error kinds, top level / call depth / continuation extents / re-entry, k in {1,2,10,1000} repetitions): implementation = extracted model = vm_compute on value, failure, sp, bp, stack capacity and trace length after every datum, and the cross-case oracle 'session with failures = session with only their completed effects' on the implementation itself.",
+    text="Coq theorems over the hand-written model of run.rs/mod.rs (after fixes f6f5af0 and 9a27905): whatever instruction fails at whatever depth, inside or outside a continuation, the machine exits with sp=0, bp=0, ep and acc reset, every stack slot wiped, and heap/globals/output exactly those at the failing instruction (completed effects only); a completed evaluation wipes the stack too; a read/compile failure reports no stack trace; a failing run decomposes exactly into n successful instructions, the failing instruction, the captured trace and reset_regs (C07_failure_state_equation, with its converse): what it leaves changed is what the completed instructions changed; after k consecutive run-time failures of any forms sp = bp = 0, ep and acc are reset and the stack is empty (C07_k_failures_no_accumulation); the stack capacity after failures is the maximum reached and does not grow by failing, unconditionally for the real builtin table (no instruction, builtin, compilation or continuation invocation ever shrinks the capacity: C07_cap_monotone_other_builtin); a read or compile failure leaves stack, capacity and all registers untouched and only appends Undefined global slots (C07_prepare_eval_error_frame); any mix of k run-time and compile-time failures leaves sp = bp = 0 as soon as one of them is a run-time failure and moves nothing otherwise (C07_mixed_failures_no_accumulation). Tied to /repo by session pairs with a failure injected at every node position of generated programs (seven error kinds, top level / call depth / continuation extents / re-entry, k in {1,2,10,1000} repetitions): implementation = extracted model = vm_compute on value, failure, sp, bp, stack capacity and trace length after every datum, and the cross-case oracle 'session with failures = session with only their completed effects' on the implementation itself.",
     design="DESIGN.md section 5 C07",
     note="Trusted: Coq kernel; hand-written model tied by sampling correspondence ; Rust harness + sp/bp/capacity accessors (cfg marwood_verif, read-only); Python tree-language interpreter that predicts completed effects. Heap memory growth under repeated failures is C12's concern. Axioms: the four standard-library axioms of Coq's Reals inherited through Flocq's binary64 in the number type of the machine state.",
     technique="Rocq/Coq proof (case analysis of the run loop's error arm, invariants) + model/implementation correspondence check + cross-case oracle")
